@@ -23,6 +23,7 @@
 #include <linux/futex.h>
 #include <cxxabi.h>
 #include <pthread.h>
+#include <mutex>
 #include <errno.h>
 #include <time.h>
 
@@ -41,6 +42,10 @@ int g_reason[MAXT];
 unsigned g_tag[MAXT];
 int g_stall[MAXT];
 const void* g_blocked_on[MAXT];
+// condition variables
+std::atomic<const void*> g_cv_wait[MAXT];   // what a simulated thread waits on (null: not waiting)
+long g_cv_seq[MAXT]; int g_cv_timed[MAXT]; int g_cv_result[MAXT];
+long g_cv_arrivals = 0, g_cv_waits = 0, g_cv_notifies = 0, g_cv_empty_notifies = 0, g_cv_timeouts = 0;
 int g_nthreads = 0;
 bool g_active = false;       // scheduler owns thread interleaving
 bool g_guard_points = true;
@@ -218,6 +223,7 @@ void vs_sim_begin(uint64_t seed, int nthreads, int policy, int pct_depth,
     g_state[t].store(t < nthreads ? S_NEW : S_NONE);
     g_go[t].store(0);
     g_stall[t] = 0; g_blocked_on[t] = nullptr;
+    g_cv_wait[t].store(nullptr); g_cv_seq[t] = 0; g_cv_timed[t] = 0; g_cv_result[t] = 0;
     g_entries[t] = 0; g_pre[t].clear(); g_pre[t].reserve(64); g_pre_i[t] = 0;
   }
   // PCT: random distinct priorities, change points in [0, est_steps)
@@ -231,6 +237,7 @@ void vs_sim_begin(uint64_t seed, int nthreads, int policy, int pct_depth,
   g_have_replay = false; g_replay.clear();
   g_freerun.store(0);
   g_nlock_seen = 0; g_lock_blocks = 0; g_lock_ops = 0;
+  g_cv_arrivals = g_cv_waits = g_cv_notifies = g_cv_empty_notifies = g_cv_timeouts = 0;
   g_active = true;
 }
 
@@ -346,7 +353,18 @@ int vs_run(void) {
         if (g_state[t].load() == S_PARKED && g_stall[t] > 0) g_stall[t] -= mn;
     }
     if (ndone == g_nthreads) break;
-    if (nr == 0) { rc = 1; break; }            // all remaining threads BLOCKED: deadlock
+    if (nr == 0) {
+      // nothing can run: the simulated clock jumps to the earliest deadline of a timed wait, which expires
+      int tw = -1;
+      for (int t = 0; t < g_nthreads; ++t)
+        if (g_state[t].load() == S_BLOCKED && g_cv_wait[t].load() != nullptr && g_cv_timed[t] && (tw < 0 || g_cv_seq[t] < g_cv_seq[tw])) tw = t;
+      if (tw >= 0) {
+        g_cv_result[tw] = ETIMEDOUT; g_cv_wait[tw].store(nullptr); g_blocked_on[tw] = nullptr;
+        g_state[tw].store(S_PARKED); ++g_cv_timeouts;
+        continue;
+      }
+      rc = 1; break;                           // all remaining threads BLOCKED: deadlock
+    }
     if (g_step >= g_budget) { rc = 2; break; } // no progress within the budget
 
     int pick = -1;
@@ -406,8 +424,8 @@ uint64_t vs_event_hash(void) {
 
 static const char* reason_name(int r) {
   static const char* n[] = {"start", "op", "guard-pre", "guard-won", "guard-prerel", "guard-postrel",
-                            "guard-blocked", "preempt", "stall", "exit", "neighbour", "guard-abort", "lock", "lock-blocked", "unlock"};
-  return (r >= 0 && r < 15) ? n[r] : "?";
+                            "guard-blocked", "preempt", "stall", "exit", "neighbour", "guard-abort", "lock", "lock-blocked", "unlock", "condvar"};
+  return (r >= 0 && r < 16) ? n[r] : "?";
 }
 
 void vs_dump_events(FILE* f) {
@@ -612,6 +630,89 @@ int __wrap_pthread_once(pthread_once_t* o, void (*f)(void)) {
   unblock_waiters(o);
   return r;
 }
+
+// ===========================================================================
+// condition-variable seam (-Wl,--wrap=pthread_cond_*, and the three out-of-line members of
+// std::condition_variable that live in libstdc++.so): wait releases the mutex and blocks in the simulator in
+// one step, a notify makes the longest waiter (all waiters) runnable, the waiter then re-acquires the mutex
+// through the lock seam.  A wait nobody will ever notify therefore ends the run as a deadlock instead of
+// hanging inside libpthread; a timed wait expires when nothing else can run (simulated clock jump).
+// ===========================================================================
+int __real_pthread_cond_wait(pthread_cond_t*, pthread_mutex_t*);
+int __real_pthread_cond_timedwait(pthread_cond_t*, pthread_mutex_t*, const struct timespec*);
+int __real_pthread_cond_clockwait(pthread_cond_t*, pthread_mutex_t*, clockid_t, const struct timespec*);
+int __real_pthread_cond_signal(pthread_cond_t*);
+int __real_pthread_cond_broadcast(pthread_cond_t*);
+void vs_cv_stats(long* w, long* n, long* e, long* to) { if (w) *w = g_cv_waits; if (n) *n = g_cv_notifies; if (e) *e = g_cv_empty_notifies; if (to) *to = g_cv_timeouts; }
+
+static int cv_wait_sim(const void* c, pthread_mutex_t* m, int timed) {
+  const int t = tl_tid;
+  ++g_cv_waits;
+  g_cv_seq[t] = ++g_cv_arrivals; g_cv_timed[t] = timed; g_cv_result[t] = 0;
+  g_cv_wait[t].store(c);
+  // release the mutex and start waiting in one step (no scheduling point in between)
+  __real_pthread_mutex_unlock(m);
+  unblock_waiters(m);
+  while (g_cv_wait[t].load() == c) {
+    if (in_freerun()) { struct timespec ts = {0, 200000}; nanosleep(&ts, nullptr); continue; }
+    g_blocked_on[t] = c;
+    park(S_BLOCKED, VS_R_CV, lock_ordinal(c));
+  }
+  const int res = g_cv_result[t];
+  __wrap_pthread_mutex_lock(m);
+  return res;
+}
+// wakes simulated waiters; returns how many
+static int cv_notify_sim(const void* c, int all) {
+  int woken = 0;
+  for (;;) {
+    int best = -1;
+    for (int u = 0; u < g_nthreads; ++u)
+      if (g_cv_wait[u].load() == c && (best < 0 || g_cv_seq[u] < g_cv_seq[best])) best = u;
+    if (best < 0) break;
+    g_cv_result[best] = 0;
+    g_cv_wait[best].store(nullptr);
+    if (g_state[best].load() == S_BLOCKED && g_blocked_on[best] == c) { g_blocked_on[best] = nullptr; g_state[best].store(S_PARKED); }
+    ++woken;
+    if (!all) break;
+  }
+  return woken;
+}
+static void cv_notify(const void* c, int all) {
+  const int t = tl_tid;
+  const int woken = cv_notify_sim(c, all);
+  if (t < 0 || !g_active || in_freerun()) return;
+  ++g_cv_notifies;
+  if (!woken) ++g_cv_empty_notifies;
+  if (g_guard_points) park(S_PARKED, VS_R_CV, lock_ordinal(c));
+}
+static bool cv_simulated() { return tl_tid >= 0 && g_active && !in_freerun(); }
+
+int __wrap_pthread_cond_wait(pthread_cond_t* c, pthread_mutex_t* m) {
+  if (!cv_simulated()) return __real_pthread_cond_wait(c, m);
+  return cv_wait_sim(c, m, 0);
+}
+int __wrap_pthread_cond_timedwait(pthread_cond_t* c, pthread_mutex_t* m, const struct timespec* ts) {
+  if (!cv_simulated()) return __real_pthread_cond_timedwait(c, m, ts);
+  return cv_wait_sim(c, m, 1);
+}
+int __wrap_pthread_cond_clockwait(pthread_cond_t* c, pthread_mutex_t* m, clockid_t clk, const struct timespec* ts) {
+  if (!cv_simulated()) return __real_pthread_cond_clockwait(c, m, clk, ts);
+  return cv_wait_sim(c, m, 1);
+}
+int __wrap_pthread_cond_signal(pthread_cond_t* c) { cv_notify(c, 0); return __real_pthread_cond_signal(c); }
+int __wrap_pthread_cond_broadcast(pthread_cond_t* c) { cv_notify(c, 1); return __real_pthread_cond_broadcast(c); }
+
+// std::condition_variable::wait(std::unique_lock<std::mutex>&), notify_one(), notify_all()
+void __real__ZNSt18condition_variable4waitERSt11unique_lockISt5mutexE(void*, std::unique_lock<std::mutex>&);
+void __real__ZNSt18condition_variable10notify_oneEv(void*);
+void __real__ZNSt18condition_variable10notify_allEv(void*);
+void __wrap__ZNSt18condition_variable4waitERSt11unique_lockISt5mutexE(void* cv, std::unique_lock<std::mutex>& lk) {
+  if (!cv_simulated()) { __real__ZNSt18condition_variable4waitERSt11unique_lockISt5mutexE(cv, lk); return; }
+  cv_wait_sim(cv, lk.mutex()->native_handle(), 0);
+}
+void __wrap__ZNSt18condition_variable10notify_oneEv(void* cv) { cv_notify(cv, 0); __real__ZNSt18condition_variable10notify_oneEv(cv); }
+void __wrap__ZNSt18condition_variable10notify_allEv(void* cv) { cv_notify(cv, 1); __real__ZNSt18condition_variable10notify_allEv(cv); }
 
 // ===========================================================================
 // static-region watch
